@@ -298,6 +298,7 @@ static void rules_info(YR_RULES* rules) {
 static void do_scan(void) {
   const char* target = kv("target"); const char* via = kv("via"); const char* data = kv("data");
   if (!target || !via || !data) { ob_puts(&out, "{\"err\":\"scan args\"}"); return; }
+  if ((target[0] == 'r' && R[atoi(target + 1)] == NULL) || (target[0] == 's' && S[atoi(target + 1)] == NULL)) { ob_puts(&out, "{\"t\":[],\"rc\":-2,\"err\":\"no such object\"}"); return; }
   int idx = atoi(target + 1); int rules_level = target[0] == 'r';
   size_t n = 0; uint8_t* buf = NULL; int owned = 1;
   if (data[0] == '@') { int b = atoi(data + 1); n = B[b].n; buf = (uint8_t*) malloc(n + 1); memcpy(buf, B[b].p, n); }
@@ -456,6 +457,7 @@ int main(int argc, char** argv) {
       ob_puts(&out, ",\"last\":"); ob_int(&out, C[i]->last_error); ob_puts(&out, ",\"lastmsg\":"); ob_jstr(&out, em, -1);
       ob_puts(&out, ",\"msgs\":["); ob_puts(&out, cmsgs.p ? cmsgs.p : ""); ob_puts(&out, "]}");
     }
+    else if (!strcmp(c, "getrules") && C[AI(1)] && C[AI(1)]->errors != 0) { reply_rc(-2); /* yr_compiler_get_rules asserts errors == 0 */ }
     else if (!strcmp(c, "getrules")) { int i = AI(1), r = AI(2), rc; if (R[r]) { API(yr_rules_destroy(R[r])); R[r] = NULL; } API(rc = yr_compiler_get_rules(C[i], &R[r])); if (rc) R[r] = NULL; reply_rc(rc); }
     else if (!strcmp(c, "rdestroy")) { int r = AI(1); if (R[r]) { API(yr_rules_destroy(R[r])); R[r] = NULL; } reply_rc(0); }
     else if (!strcmp(c, "save")) {
@@ -495,6 +497,7 @@ int main(int argc, char** argv) {
     else if (!strcmp(c, "blobpatch")) { int b = AI(1); long off = atol(A(2)); size_t n; uint8_t* p = unhex(A(3), &n); if (off >= 0 && (size_t) off + n <= B[b].n) memcpy(B[b].p + off, p, n); free(p); reply_rc(0); }
     else if (!strcmp(c, "blobcopy")) { int a = AI(1), b = AI(2); uint8_t* p = (uint8_t*) malloc(B[a].n + 1); memcpy(p, B[a].p, B[a].n); set_blob(b, p, B[a].n); reply_rc(0); }
     else if (!strcmp(c, "blobcmp")) { int a = AI(1), b = AI(2); int eq = B[a].n == B[b].n && (B[a].n == 0 || !memcmp(B[a].p, B[b].p, B[a].n)); long fd = -1; if (!eq) { size_t k = 0; while (k < B[a].n && k < B[b].n && B[a].p[k] == B[b].p[k]) k++; fd = (long) k; } ob_puts(&out, "{\"eq\":"); ob_int(&out, eq); ob_puts(&out, ",\"firstdiff\":"); ob_int(&out, fd); ob_puts(&out, ",\"la\":"); ob_int(&out, (long long) B[a].n); ob_puts(&out, ",\"lb\":"); ob_int(&out, (long long) B[b].n); ob_putc(&out, '}'); }
+    else if (!strcmp(c, "scanner") && R[AI(2)] == NULL) { reply_rc(-2); }
     else if (!strcmp(c, "scanner")) { int s = AI(1), r = AI(2), rc; if (S[s]) { API(yr_scanner_destroy(S[s])); S[s] = NULL; } API(rc = yr_scanner_create(R[r], &S[s])); if (rc) S[s] = NULL; reply_rc(rc); }
     else if (!strcmp(c, "sdestroy")) { int s = AI(1); if (S[s]) { API(yr_scanner_destroy(S[s])); S[s] = NULL; } reply_rc(0); }
     else if (!strcmp(c, "sflags")) { yr_scanner_set_flags(S[AI(1)], AI(2)); reply_rc(0); }
